@@ -154,7 +154,7 @@ func (c Int16) Log1pExp(a ConstScalar) Scalar {
   } else
   if v <= 33.3 {
     c.Neg(a)
-    c.Exp(a)
+    c.Exp(c)
     c.Add(c, a)
   } else {
     c.Set(a)
